@@ -43,6 +43,9 @@ func (r *Runner) runHistory(it *spec.Item) {
 		sizes = []int{-1}
 	}
 	want := obs.WantExec | obs.WantAST | obs.WantErr
+	if it.NoTree {
+		want = obs.WantExec | obs.WantErr
+	}
 	ser := func(o obs.Obs) string {
 		b, _ := json.Marshal(o)
 		return string(b)
@@ -80,6 +83,14 @@ func (r *Runner) runHistory(it *spec.Item) {
 						r.mismatch(c, "C13", "token-bounds-long-input", "offsets within the input", fmt.Sprint(t), fmt.Sprint(len(in)))
 						break
 					}
+				}
+			}
+			// the message of a failure names line, column and text of the error token, however long it is (C11)
+			if w := []rune(in); !o.OK && o.Panic == "" && o.ErrPanic == "" && o.ErrTok.B >= 0 && o.ErrTok.B < o.ErrTok.E && o.ErrTok.E <= len(w) && len(w) <= 100000 {
+				c := &caseCtx{it, gshow, v.Name, "", show(in), false, false}
+				r.eval("C11", o.ErrTok.E-o.ErrTok.B > 32, fmt.Sprintf("%d|histmsg|%s|%s", it.Idx, v.Name, show(in)), nil)
+				if why := checkMessage(o.ErrMsg, o.ErrTok, w); why != "" {
+					r.mismatch(c, "C11", "message", why, strconv.Quote(clipStr(o.ErrMsg, 300)), why)
 				}
 			}
 			// tie the reference observation to the reference interpreter (short inputs only)
@@ -198,4 +209,12 @@ func showAll(ss []string, f func(string) string) []string {
 		out[i] = f(s)
 	}
 	return out
+}
+
+
+func clipStr(s string, n int) string {
+	if len(s) > n {
+		return s[:n] + "…"
+	}
+	return s
 }
